@@ -752,7 +752,12 @@ example :
     and otherwise an `Expression::Cast`, whose type is an rvalue; the innermost scope that knows the
     name supplies the whole overload list, in insertion order; a struct supplies all its methods of that name; an
     intrinsic object all its functions of that name; `find_function_type` is called from `write_function` and
-    `write_method` only -/
+    `write_method` only; and — what `Model/OverloadSeq.lean` walks through — a declaration that matches no earlier one
+    is registered and pushed, a definition of a declared function takes its id and pushes nothing, the body of an
+    ordinary function is type checked at its definition and that of a template is not, a struct registers all its
+    methods before it type checks the first body, a call that selects a template instance builds the instance's body
+    only if it has none, in the scope the template was declared in, and a struct template is instantiated once per
+    argument list, in the scope it was declared in -/
 theorem resolve_shape_as_modelled :
     RsslVerif.Gen.ResolveShape.shape =
       { arityGuardThenCasts := true, tournamentComparesAllPairsSkippingSelf := true,
@@ -766,11 +771,42 @@ theorem resolve_shape_as_modelled :
         signatureSubstitutionFailsAsAWhole := true, templateInstantiationPropagatesTheFailure := true,
         intrinsicInstantiationPropagatesTheFailure := true, functionCallChecksOutputsAfterCasts := true,
         methodCallChecksOutputsAfterCasts := true, applyKeepsTheExpressionOnlyWithoutAnyCast := true,
-        aCastIsAnRvalue := true, innermostScopeWithTheNameWins := true,
+        aCastIsAnRvalue := true,
+        declarationIsPushedADefinitionOfItReusesTheId := true, bodyIsCheckedAtTheDefinitionATemplateBodyIsNot := true,
+        allMethodsAreRegisteredBeforeTheFirstBody := true,
+        templateBodyIsBuiltOncePerInstanceInTheDeclaringScope := true, aCallOfAnInstanceBuildsItsBody := true,
+        structTemplateIsInstantiatedOncePerArgumentsInTheDeclaringScope := true,
+        innermostScopeWithTheNameWins := true,
         scopeContributesItsOwnFunctionsOnly := true, overloadsAreAppended := true,
         methodsAreAllMethodsOfThatName := true } ∧
     RsslVerif.Gen.ResolveShape.callers = ["write_function", "write_method"] ∧
     RsslVerif.Gen.ResolveShape.objectMethodsAreAllFunctionsOfThatName = true := by decide
+
+/-- **`resolutionReadsNoCallHistory`**: the state the resolution can reach.  `find_function_type`,
+    `find_overload_casts`, `try_infer_template_type` and `normalize_template_type` go through their `context` only to
+    the function registry (`get_function_signature`, `get_intrinsic_data`), the type registry (`get_type_layer`,
+    `register_type`: hash-consing), `&mut context.module` handed to `ImplicitConversion::find`, each other, and the two
+    routines that instantiate a candidate's signature; those two read and extend the function registry (the
+    instantiation of a template for given arguments is found again, `find_instantiation`: a function of its key —
+    the signature is `apply_templates` of the template's), the scope table of the *template* (`function_to_scope`,
+    `scopes`, `make_scope`) and the template parameter tables.  None of it is written by a call site except the
+    instantiation registry.  And a `Context` has no field besides the module, the scope table, the current scope,
+    `function_to_scope` and the struct template table: there is no place where one call could leave its verdict for
+    the next (a memo of resolved calls would be a new field and a new path: the seeded defect C16-3). -/
+theorem resolution_reads_no_call_history :
+    RsslVerif.Gen.ResolveShape.resolutionContextUses =
+      ["context", "context.build_function_template_signature", "context.build_intrinsic_template", "context.module",
+       "context.module.function_registry.get_function_signature", "context.module.function_registry.get_intrinsic_data",
+       "context.module.type_registry.get_type_layer", "context.module.type_registry.register_type"] ∧
+    RsslVerif.Gen.ResolveShape.instantiationContextUses =
+      ["self.function_to_scope", "self.function_to_scope.insert", "self.make_scope",
+       "self.module.function_registry.find_instantiation", "self.module.function_registry.get_function_name_definition",
+       "self.module.function_registry.get_function_signature", "self.module.function_registry.get_intrinsic_data",
+       "self.module.function_registry.register_function", "self.module.function_registry.set_intrinsic_data",
+       "self.module.function_registry.set_template_instantiation_data", "self.module.type_registry.get_template_type",
+       "self.module.variable_registry.get_template_value", "self.scopes"] ∧
+    RsslVerif.Gen.ResolveShape.contextFields =
+      ["module", "scopes", "current_scope", "function_to_scope", "struct_template_data"] := by decide
 
 /-- the seven transcribed functions are, character for character (comments and white space aside), the text the model
     was transcribed from -/
